@@ -24,18 +24,20 @@ TEMPLATES = [
     '{[#A][#B]}.{#A=c1ccccc1[$@l],#B=[$@l]c1ccncc1}',
     '{[#A][#B]}.{#A=C#[$@l],#B=[$@l]#C[$@l]}',
     '{[#A][#B]}.{#A=C[N+]([$@l])(C)C,#B=[$@l]C[@k@l]}',
+    '{[#A][#B]}.{#A=[O;0]C[$@l],#B=[$@l]C[N;w=0]}',
+    '{[#A]|2}.{#A=[$][C;w=0.5]([H;w=0])[C;0][$]}',
 ]
 
 
 class C09(core.Prop):
     ID = 'C09'
-    FUNCTIONS = ['rebuild_h_atoms', 'edges_from_bonding_descrpt', 'read_fragment_smiles', 'resolve', 'resolve_disconnected_molecule',
+    FUNCTIONS = ['rebuild_h_atoms', 'add_fragment', 'sample', 'edges_from_bonding_descrpt', 'read_fragment_smiles', 'resolve', 'resolve_disconnected_molecule',
                  'merge_graphs', 'sort_nodes_by_attr', 'strip_bonding_descriptors', 'match_bonding_descriptors', 'compatible']
     STUBS = ['re matcher (symx)', 'compatible(): summarised', 'pysmiles (valence arithmetic, aromaticity) and networkx run natively']
     ASSUMPTIONS = ['valence table V of DESIGN.md section 3.1 (spec side, not pysmiles\')',
                    'the clause on an atom applies when its bonds to heavy atoms fit max V(element, charge) (property precondition)',
                    'a string on which the resolver raises is not "resolvable": such paths are pruned and counted, not judged here',
-                   'the sampler outputs are judged by the same clause inside the C16 check',
+                   'all-atom sampler outputs: the RNG stream / target exploration of C16 (<= 2-3 added fragments), judged by the valence clauses',
                    'a single-hydrogen fragment that the string gives no compatible descriptor for stays unbonded (not judged)']
     OUTSIDE = ['hyper-valent atoms (sum of heavy-atom bond orders above every standard valence)', 'elements outside the organic subset']
     BOUNDS = {
@@ -50,8 +52,15 @@ class C09(core.Prop):
     TECHNIQUE = 'symbolic execution of the resolver; local valence oracle from a spec-side valence table; z3'
     MAX_PATHS = 4000
 
+    ALLOW_VACUOUS = True      # sampler sub-shapes: a prefix class of the first draws may be infeasible
+
     def setup_shadow(self, SH):
         install_summaries(SH)
+        from .c16 import install_rng, PROP as C16P
+        hooks = list(symx.RT.call_hooks)
+        install_rng(SH)
+        symx.RT.call_hooks = hooks + symx.RT.call_hooks
+        C16P._cut = [0]
 
     def shapes(self, tier):
         from .c01 import PROP as C01P
@@ -69,9 +78,17 @@ class C09(core.Prop):
         for t in TEMPLATES:
             for ll in ((1,) if tier == 'quick' else (1, 2)):
                 out.append({'mode': 'tmpl', 'text': t, 'lablen': ll})
+        # all-atom sampler outputs (the exploration of C16, judged here by the valence clauses only)
+        from .c16 import CONFIGS, PROP as C16P
+        for sh in C16P.shapes(tier):
+            if CONFIGS[sh['cfg']]['aa']:
+                out.append({'mode': 'sampler', 'sampler': dict(sh, kmax=2 if tier == 'quick' else 3)})
         return out
 
     def build(self, shape):
+        if shape['mode'] == 'sampler':
+            from .c16 import PROP as C16P
+            return C16P.build(shape['sampler'])
         if shape['mode'] == 'case':
             case = shape['case']
             r = pl.render_case(case)
@@ -105,9 +122,16 @@ class C09(core.Prop):
         return {'text': cat(*parts)}
 
     def execute(self, M, shape, inp):
+        if shape['mode'] == 'sampler':
+            from .c16 import PROP as C16P
+            return C16P.execute(M, shape['sampler'], inp)
         return core.guard(pl.run_resolver, M, inp['text'])
 
     def oracle(self, shape, inp, obs):
+        if shape['mode'] == 'sampler':
+            if obs[0] != 'ok':
+                raise symx.PathAbort()
+            return [('sampled', True)] + valence_clauses(obs[1]['mol'])
         if obs[0] != 'ok':
             raise symx.PathAbort()      # not resolvable: outside the property's quantifier
         cl = [('resolved', True)] + valence_clauses(obs[1]['mol'])
@@ -118,6 +142,8 @@ class C09(core.Prop):
         return cl
 
     def sample(self, shape, cinp):
+        if shape['mode'] == 'sampler':
+            return {'sampler': shape['sampler']['cfg'], 'target': str(cinp['target']), 'draws': list(cinp['draws'].values())}
         return cinp['text']
 
     MUTANTS = {
